@@ -97,6 +97,7 @@ func workerMain(a []string) int {
 	wi, _ := strconv.Atoi(a[3])
 	wn, _ := strconv.Atoi(a[4])
 	variant := a[5]
+	curVariant = variant
 	out := a[6]
 	base := filepath.Join(out, fmt.Sprintf("w-%s-%d", variant, wi))
 	w := newWorker(p.ID, base+".journal")
@@ -388,6 +389,9 @@ func parentRun(propID, tier, bindir string) int {
 			fmt.Printf("  signature: %s\n  unit: %s case_seed=%d\n  %s\n", v.Signature, v.Unit, v.CaseSeed, indent(firstLines(v.Message, 12)))
 		}
 		fmt.Printf("  (%d violating case(s), %d distinct signature(s))\n", len(fresh), len(seen))
+		for _, k := range sortedKeys(seen) {
+			fmt.Printf("    %5d x %s\n", seen[k], k)
+		}
 	} else if len(inconclusive) > 0 || merged.Evaluations == 0 || len(nt) < 2 {
 		code = 2
 		for _, s := range inconclusive {
